@@ -609,6 +609,8 @@ static Case generate(Tape &t)
 	}
 	C.cfg.cn_buf = t.pick<size_t>({ 32, 32, 8, 1, 64 });
 	C.cfg.dns_buf = t.pick<size_t>({ 24, 24, 6, 1, 64 });
+	// half of the cases: buffers of every small size (a value exactly as long as the buffer does not fit: the terminating zero)
+	{ unsigned zs = t.u8(); if (zs & 1) { C.cfg.cn_buf = 1 + (zs >> 1) % 28; C.cfg.dns_buf = 1 + (zs >> 2) % 26; } }
 	return C;
 }
 
